@@ -1,6 +1,8 @@
 import NfcVerif.Lemmas.PduRound
 import NfcVerif.Lemmas.PduSpec
 import NfcVerif.Lemmas.PduReenc
+import NfcVerif.Lemmas.PduObj
+import NfcVerif.Lemmas.PduOctets
 /-!
 # C11 - LLCP PDU encoding and decoding are mutually consistent
 
@@ -9,6 +11,11 @@ Statements only; proofs are in `Lemmas/Pdu.lean` (length), `Lemmas/PduSafe.lean`
 `Model/Pdu.lean` transcribes `nfc/llcp/pdu.py` with the repairs of `fixes/C11`
 (RW = 0 is encoded; `decode` restricts the buffer to the PDU; AGF inside AGF is
 refused).  `Impl.decode b = Impl.decodeAt b 0 b.length`.
+
+PDU objects are mutable and re-encoded by the stack (`tco` assigns `ns`/`nr`, `llc` fills the PAX PDU through its
+properties and appends to the SNL lists, `==` compares encodings): `Model/PduObj.lean` adds assignments, the PAX
+property setters/getters and histories of operations on one object; the `obj_*` / `pax_*` theorems below
+(`Lemmas/PduObj.lean`) state the property for the fields an object has when it is observed, after any history.
 -/
 namespace NfcVerif.C11
 open NfcVerif NfcVerif.Pdu
@@ -113,6 +120,110 @@ theorem pdu_norm_idem (p : Pdu) : norm (norm p) = norm p := Impl.norm_idem p
 /-- a valid PDU is in normal form, so `pdu_decode_reencode` and `pdu_roundtrip` agree on valid PDUs -/
 theorem pdu_norm_valid (p : Pdu) (h : Valid p) : norm p = p := Impl.norm_of_valid p h
 
+
+/-- The encoding of ANY PDU (valid or not) whose payloads and names are octet strings is an octet string
+whenever `encode` succeeds: the range checks of the encoder cover every numeric field. -/
+theorem pdu_encoding_is_octets (p : Pdu) (ho : Octets p) (b : Bytes) (he : Impl.encode p = .ok b) : IsBytes b :=
+  Impl.encode_isBytes p ho b he
+
+/-- Encoder against the independent reading, without going through the decoder: for every valid PDU with octet
+payloads the encoding is an octet string that `Spec.decode` (LLCP 1.3 frame formats) reads back as that PDU. -/
+theorem pdu_encoding_read_by_spec (p : Pdu) (hv : Valid p) (ho : Octets p) :
+    ∃ b, Impl.encode p = .ok b ∧ IsBytes b ∧ Spec.decode b = some p :=
+  Impl.encode_read_by_spec p hv ho
+
+/-! ## PDU objects: the property after any history of assignments and observations -/
+
+open Obj in
+/-- Observations (`encode`, `len`, `encode_header`, `==`, `str`, property and field reads) never change the
+fields: the fields after a history are those after its assignments / appends alone. -/
+theorem obj_observers_pure (p : Pdu) (ops : List Op) : final p ops = final p (ops.filter Op.mutates) :=
+  final_filter p ops
+
+open Obj in
+/-- What an operation returns after ANY history `pre` is a function (`reply`) of the fields the object has then;
+in particular `encode` after a history is `Impl.encode` of the current fields - no stale value. -/
+theorem obj_reply_at (p : Pdu) (pre : List Op) (o : Op) (post : List Op) :
+    (run p (pre ++ o :: post))[pre.length]? = some (reply (final p pre) o) :=
+  run_at p pre o post
+
+open Obj in
+/-- Round trip and length at any point of any history: whenever the fields reached are valid, `encode` succeeds,
+decoding the encoding returns exactly those fields, and `len` is the length of the encoding. -/
+theorem obj_history_roundtrip (p : Pdu) (pre post : List Op) (hv : Valid (final p pre)) :
+    ∃ b, (run p (pre ++ .enc :: .len :: post))[pre.length]? = some (.bytes (.ok b)) ∧
+      (run p (pre ++ .enc :: .len :: post))[pre.length + 1]? = some (.nat b.length) ∧
+      Impl.decode b = .ok (final p pre) ∧
+      final p pre = final p (pre.filter Op.mutates) :=
+  history_roundtrip p pre post hv
+
+open Obj in
+/-- An in-range assignment keeps a non-aggregate PDU valid: for every attribute of every class (values in the
+range of the attribute; the fixed SAPs of SYMM/PAX/SNL/DPS kept), the five private PAX attributes, the PAX
+property setters with ANY number (they mask), whole SDREQ/SDRES lists and appends to them. -/
+theorem obj_assign_valid (a : Asg) (p : SPdu) (hv : ValidS p) (ha : AsgOk a) (hs : SapOk a p) :
+    ValidS (assignS a p) :=
+  assignS_valid a p hv ha hs
+
+open Obj in
+/-- the same for every operation on an object, including `agf.append` and assignments to an aggregated PDU -/
+theorem obj_apply_valid (p : Pdu) (o : Op) (hv : Valid p) (ho : OpOk p o) : Valid (apply p o) :=
+  apply_valid p o hv ho
+
+open Obj in
+/-- A valid object under a history of in-range operations (any observations in between): at the end - hence at
+every point, `pre` being any prefix - `encode` succeeds, decoding returns the current fields, `len` is the
+length of the encoding. -/
+theorem obj_valid_history_roundtrip (p : Pdu) (pre post : List Op) (hv : Valid p) (hh : HistOk p pre) :
+    ∃ b, (run p (pre ++ .enc :: .len :: post))[pre.length]? = some (.bytes (.ok b)) ∧
+      (run p (pre ++ .enc :: .len :: post))[pre.length + 1]? = some (.nat b.length) ∧
+      Impl.decode b = .ok (final p pre) ∧ Valid (final p pre) :=
+  valid_history_roundtrip p pre post hv hh
+
+/-- The library's `==` compares encodings.  On valid PDUs it never raises and it is equality of the field
+values (so comparing PDUs in a queue, as `tco` does, compares fields). -/
+theorem pdu_eq_iff_fields (p q : Pdu) (hp : Valid p) (hq : Valid q) :
+    ∃ r, Obj.pduEq p q = .ok r ∧ (r = true ↔ p = q) :=
+  Obj.pduEq_iff p q hp hq
+
+/-- the encoder is injective on valid PDUs -/
+theorem pdu_encode_injective (p q : Pdu) (hp : Valid p) (hq : Valid q) (h : Impl.encode p = Impl.encode q) : p = q :=
+  Obj.encode_injective p q hp hq h
+
+open Obj in
+/-- The PAX properties as `llc.activate` uses them: what the getters return after the setters, for every PAX PDU
+and every number assigned. -/
+theorem pax_property_set_get (d s : Nat) (a b c e f : Option Nat) (v x y : Nat) :
+    paxGet .lsc (assignS (.n .lsc v) (.pax d s a b c e f)) = some (v % 4, 0) ∧
+    paxGet .dpc (assignS (.n .lsc v) (.pax d s a b c e f)) = paxGet .dpc (.pax d s a b c e f) ∧
+    paxGet .dpc (assignS (.n .dpc v) (.pax d s a b c e f)) = some (if v ≠ 0 then 1 else 0, 0) ∧
+    paxGet .lsc (assignS (.n .dpc v) (.pax d s a b c e f)) = paxGet .lsc (.pax d s a b c e f) ∧
+    paxGet .lto (assignS (.n .lto v) (.pax d s a b c e f)) = some (v / 10 % 256 * 10, 0) ∧
+    paxGet .wks (assignS (.n .wks v) (.pax d s a b c e f)) = some (v % 65536, 0) ∧
+    paxGet .miu (assignS (.n .miu v) (.pax d s a b c e f)) = some (max v 128, 0) ∧
+    paxGet .version (assignS (.version x y) (.pax d s a b c e f)) = some (x % 16, y % 16) :=
+  pax_set_get d s a b c e f v x y
+
+open Obj in
+theorem pax_lto_exact (d s : Nat) (a b c e f : Option Nat) (k : Nat) (hk : k ≤ 255) :
+    paxGet .lto (assignS (.n .lto (10 * k)) (.pax d s a b c e f)) = some (10 * k, 0) :=
+  Obj.pax_lto_exact d s a b c e f k hk
+
+open Obj in
+/-- the property setters produce valid parameters whatever number is assigned -/
+theorem pax_setters_valid (p : SPdu) (hv : ValidS p) (v x y : Nat) :
+    ValidS (assignS (.n .lsc v) p) ∧ ValidS (assignS (.n .dpc v) p) ∧ ValidS (assignS (.n .lto v) p) ∧
+    ValidS (assignS (.n .wks v) p) ∧ ValidS (assignS (.version x y) p) :=
+  Obj.pax_setters_valid p hv v x y
+
+open Obj in
+/-- `FrameReject.from_pdu`: the FRMR PDU built from a valid PDU, any subset of the flags "SRIW" and counters
+0..15 has valid field values - hence `pdu_roundtrip` applies to it. -/
+theorem frmr_from_pdu_valid (p : SPdu) (hv : ValidS p) (s r i w : Bool) (vs vsa vr vra : Nat)
+    (h1 : vs ≤ 15) (h2 : vsa ≤ 15) (h3 : vr ≤ 15) (h4 : vra ≤ 15) :
+    ValidS (frmrFromPdu p (flagList s r i w) vs vsa vr vra) :=
+  frmrFromPdu_valid p hv s r i w vs vsa vr vra h1 h2 h3 h4
+
 /-! Non-vacuity and the three repaired defects on concrete inputs. -/
 example : Valid (.simple (.connect 4 32 130 0 (some [0x41, 0x42]))) := by simp [Valid, ValidS]
 example : Valid (.agf 0 0 [.disc 1 2, .snl 1 1 [(1, [0x61])] [(2, 16)], .pax 0 0 (some 0x13) none (some 3) none (some 3)]) := by
@@ -132,10 +243,39 @@ example : Impl.decode [0, 0x80, 0, 2, 0x05, 0x41, 0, 3, 0x0F, 0x44, 0x05] =
 example : Impl.decode [0x03] = .error .decodeError := by decide
 example : Spec.decode [0x43, 0x20, 0x35, 1, 2] = some (.simple (.info 16 32 3 5 [1, 2])) := by decide
 example : IsBytes [0x11, 0x20, 6, 0, 2, 2, 0, 5] := by decide
+example : Octets (.agf 0 0 [.ui 1 2 [0xFF, 0], .connect 4 32 130 0 (some [0x41, 0x42]), .snl 1 1 [(1, [0x61])] []]) := by
+  simp [Octets, OctetsS, IsBytes]
 /-- an empty service name is decoded as `some []` and re-encodes as absent (normal form) -/
 example : Impl.decode [0x11, 0x20, 6, 0, 2, 2, 0, 5] = .ok (.simple (.connect 4 32 133 1 (some []))) := by decide
 example : norm (.simple (.connect 4 32 133 1 (some []))) = .simple (.connect 4 32 133 1 none) := by decide
 example : Impl.encode (.simple (.connect 4 32 133 1 (some []))) = .ok [0x11, 0x20, 2, 2, 0, 5] := by decide
 example : Spec.decode [0, 0x80, 0, 4, 0x11, 0x20, 6, 0] = some (.agf 0 0 [.connect 4 32 128 1 (some [])]) := by decide
+
+/-! objects: the send path of a data link connection (N(S) at `send()`, `==` in the queue, N(R) at dequeue) -/
+section
+open Obj
+example : run (.simple (.info 32 16 0 0 [0x68, 0x69]))
+    [.enc, .set (.n .ns 3), .eq (.simple (.info 32 16 3 0 [0x68, 0x69])), .set (.n .nr 7), .enc, .len, .state] =
+    [.bytes (.ok [0x83, 0x10, 0x00, 0x68, 0x69]), .none, .bool (.ok true), .none,
+     .bytes (.ok [0x83, 0x10, 0x37, 0x68, 0x69]), .nat 5, .pdu (.simple (.info 32 16 3 7 [0x68, 0x69]))] := by decide
+example : HistOk (.simple (.info 32 16 0 0 [0x68, 0x69]))
+    [.enc, .set (.n .ns 3), .eq (.simple (.info 32 16 3 0 [0x68, 0x69])), .set (.n .nr 7)] := by
+  simp [HistOk, OpOk, AsgOk, SapOk, freeSap, apply, assignS, assignN]
+example : Valid (final (.simple (.info 32 16 0 0 [0x68, 0x69])) [.enc, .set (.n .ns 3), .len, .set (.n .nr 7)]) := by
+  simp [final, apply, assignS, assignN, Valid, ValidS]
+/-- the PAX PDU as `llc.activate` fills it -/
+example : final (.simple (.pax 0 0 none none none none none))
+    [.set (.version 1 3), .set (.n .wks 0x13), .set (.n .miu 2175), .set (.n .lto 500), .set (.n .lsc 3), .set (.n .dpc 1)] =
+    .simple (.pax 0 0 (some 0x13) (some 0x7FF) (some 0x13) (some 50) (some 7)) := by decide
+example : HistOk (.agf 0 0 [.disc 1 2]) [.append (.rr 1 2 3), .enc, .setItem 1 (.n .nr 5)] := by
+  simp [HistOk, OpOk, AsgOk, SapOk, ValidS, Impl.lenS, apply, assignS, assignN]
+example : run (.agf 0 0 [.disc 1 2]) [.append (.rr 1 2 3), .setItem 1 (.n .nr 5), .enc, .len] =
+    [.none, .none, .bytes (.ok [0, 0x80, 0, 2, 5, 0x42, 0, 3, 7, 0x42, 5]), .nat 11] := by decide
+/-- a PAX parameter that holds its default value is still encoded and counted (LTO = 10, i.e. 100 ms) -/
+example : Impl.encode (.simple (.pax 0 0 none none none (some 10) none)) = .ok [0, 0x40, 4, 1, 10] := by decide
+example : Impl.len (.simple (.pax 0 0 none none none (some 10) none)) = 5 := by decide
+example : Obj.pduEq (.simple (.rr 1 2 3)) (.simple (.rr 1 2 4)) = .ok false := by decide
+example : frmrFromPdu (.info 32 16 5 9 [1]) (flagList false false false true) 1 2 3 4 = .frmr 16 32 8 12 5 9 1 3 2 4 := by decide
+end
 
 end NfcVerif.C11
